@@ -161,9 +161,18 @@ CLAIMS.update({
         ref="DESIGN.md §3 C15"),
 })
 
+CLAIMS.update({
+    "C13": dict(
+        technique="static analysis: finite-domain evaluation of each generator's LuaGenerator::write_expression on string and interpolated-string nodes from the typed THIR (abstract interpretation; core::fmt's template encoding and integer formatting modelled), read back by an independent reader of Lua 5.1 / Luau string-literal syntax (rustc_private driver)",
+        text="String half only. For each of the three generators: every byte string of length <= 1, every pair (any byte, one byte per class the writer distinguishes; thorough: all 65536 pairs) "
+             "and the structured long forms (lengths around the 20/60 thresholds, 5/6/7 newlines, `]]`/`]=]`/`]==]` runs, trailing `]`, leading newline, CR, quotes, invalid UTF-8, non-ASCII) is written as ONE "
+             "complete literal that Luau reads back as exactly the same bytes, and Lua 5.1 too unless it contains `\\u{`; the same for interpolated-string segments. "
+             "NUMBER literals (formatting and parsing of doubles) are NOT decided: they are arithmetic on run-time values; neighbouring-token fusion is C02.fuse.",
+        note="No darklua code runs; the enumerated domain is finite; a string the evaluator cannot establish fails closed. The reader is strict (unknown escapes are errors). " + TB,
+        ref="DESIGN.md §3 C13"),
+})
+
 NOT_APPLICABLE = {
-    "C13": "literal round-trip equality is arithmetic on bytes and doubles (escape padding, shortest float repr, quote choice by content): "
-           "no clause is visible in the shape of the code beyond what unit tests already pin; static analysis cannot bound these runtime values",
 }
 
 
